@@ -122,7 +122,10 @@ Proof.
   - cbn [fill_gaps] in H. destruct (a * 4096 =? zlen img) eqn:E; cbn [negb] in H.
     + injection H as <-. cbn [chain map concat]. repeat split; auto. { f_equal. lia. }
       replace (zlen img - a * 4096) with 0 by lia. reflexivity.
-    + rewrite SZ in H. rewrite gap_region_eq in H by lia. cbn [bind] in H. injection H as <-.
+    + assert (MZ : (zlen img mod ifd_block =? 0) = true)
+        by (rewrite SZ; change ifd_block with 4096; rewrite Z.mod_mul by lia; reflexivity).
+      rewrite MZ in H. cbn [negb] in H.
+      rewrite SZ in H. rewrite gap_region_eq in H by lia. cbn [bind] in H. injection H as <-.
       cbn [chain map concat region_fr region_buf].
       unfold base_off, end_off. cbn [fr_base fr_limit]. consts.
       replace (a * 4096 =? a * 4096) with true by lia. rewrite app_nil_r.
